@@ -360,9 +360,21 @@ def _twin_check(w, res):
     from simcore.core import Recorder, RunResult
     from .world import EngineWorld
     plan = getattr(w, "plan", None)
-    if plan is None or not getattr(w, "quiescent", False) or getattr(w, "final_method_state", None) is None:
+    if plan is None:
         return
-    if "edit" in w.ctx_flags or "err" in w.ctx_flags or any(op[0] in ("edit", "cancel", "force") for op in plan["ops"]):
+    if "edit" in w.ctx_flags or any(op[0] in ("edit", "cancel", "force") for op in plan["ops"]):
+        return
+    if "err" in w.ctx_flags:
+        # every snippet of this profile is valid code. If the run with the injections ended in an error while the same
+        # run without them reaches the end of the method cleanly, the injections caused the error: they did change
+        # which method lines start and complete, and a command they started did not complete and finalize normally
+        if any(op[0] == "inject" for op in plan["ops"]) and _twin_run(plan) is not None:
+            first = next((e for e in w.events if e[1] == "method_error"), None)
+            res.add("C14", "C14.injection_caused_run_error", "error", w.tick_no,
+                    f"the run with injected code {[op[1] for op in plan['ops'] if op[0] == 'inject']} went into an error "
+                    f"({first}); the same run without the injections reaches the end of the method without any error")
+        return
+    if not getattr(w, "quiescent", False) or getattr(w, "final_method_state", None) is None:
         return
     # injected code that opens / ends blocks, or starts a command that the method uses too (or an overlapping one: the
     # newer request replaces the method's command by design), legitimately interacts with the method's lines
@@ -379,6 +391,18 @@ def _twin_check(w, res):
                 name = name.split(" ")[-1] if name and name[0].isdigit() else name
                 if name in ("Block", "End block", "End blocks") or name in rivals:
                     return
+    ms = _twin_run(plan)
+    if ms is None:
+        return
+    a = w.final_method_state
+    _twin_compare(w, res, plan, a, ms)
+
+
+def _twin_run(plan):
+    """The plan without its injections on a fresh engine; the method state before the final Stop, or None when that run
+    does not reach the end of the method at rest and without error."""
+    from simcore.core import Recorder, RunResult
+    from .world import EngineWorld
     r2 = RunResult()
     t = EngineWorld(r2, Recorder())
     try:
@@ -411,14 +435,17 @@ def _twin_check(w, res):
                     t.tick(0.1)
             elif k == "end_stop":
                 if not (any(e[1] == "method_end" for e in t.events) and not t.uod.command_instances):
-                    return
+                    return None
                 ms = t.method_state()
                 break
-        if ms is None or t.exceptions or any(e[1] == "method_error" for e in t.events):
-            return
+        if ms is None or t.exceptions or any(e[1] == "method_error" for e in t.events) or "err" in t.ctx_flags:
+            return None
+        return ms
     finally:
         t.close()
-    a = w.final_method_state
+
+
+def _twin_compare(w, res, plan, a, ms):
     # lines in Watch / Alarm bodies are left out: interrupts keep firing after the method's end, and the two runs come to
     # rest a few ticks apart (the injected code takes ticks), so such a line may have started in one and not yet in the other
     tree = model.parse(plan["method"])
